@@ -183,6 +183,14 @@ CHECKS = {
          'enumerations (or the first 4 solutions of infinite ones), membership tests and error formals are compared with the model.',
     note='Infinite enumerations compared on a finite prefix; succ/2 errors compared on "some error is raised" where the library '
          'delegates to can_be/2.'),
+ 'C52': dict(
+    level='exploration',
+    technique='runtime monitoring: range/type invariants on every sample, endpoint reachability, reproducibility differential (same seed on the same and on a fresh machine)',
+    text='Batches of samples of random/1 and of random_integer/3 over small, negative, tiny (width <= 3), 2^55/2^63/2^64-boundary '
+         'and bignum ranges (also with boxed bounds) are checked for type and range, tiny ranges must return both endpoints, empty '
+         'ranges must fail, ill-typed bounds must raise the documented errors, and after set_random(seed(S)) (seeds of every size '
+         'and sign) a mixed sequence of 30 calls must repeat after re-seeding and on a fresh machine.',
+    note='No distributional claim beyond endpoint reachability (false-alarm probability < 2^-150 per tiny range).'),
 }
 
 NOT_APPLICABLE_REASON_UNBUILT = ('check designed in DESIGN.md but not built/validated yet in this session; '
